@@ -16,6 +16,9 @@ def plan(tier, prop):
                 items.append((sp, ["eval_root", "eval_sub"], st, 2 if tier == "quick" else 3, {prop}, (False, ("inproc", "restart"))))
                 # revert histories (A, B, A) of a kept top-level node with nested keeps: depth 3 over the leaf's edit point only
                 sp3 = dict(sp, eps=[e for e in sp["eps"] if e["id"] == "V2"], id=sp["id"] + "/top")
+                if st in ("local", "local_cache2", "dbfs") and (tier != "quick" or "fan" in sp["id"]):
+                    # two long-lived processes alternate on one store (each keeps its object cache and in-process state)
+                    items.append((sp3, ["top_n0", "eval_root"], st, 3, {prop}, (True, ("inproc", "switch"))))
                 if tier != "quick" or st in ("memory", "local"):
                     items.append((sp3, ["top_n0"], st, 3, {prop}, True))
                     items.append((sp3, ["top_n0", "eval_root"], st, 2, {prop}, (False, ("inproc", "restart"))))
@@ -40,6 +43,10 @@ def plan(tier, prop):
             for a, b in ENTRY_PAIRS:
                 if a in sp["entries"] and b in sp["entries"] and (tier != "quick" or core or sp["id"].endswith("/direct") or sp["key"].startswith("arg|")):
                     items.append((sp, [a, b], "memory" if tier == "quick" else "local", 2, {prop}, (False, ("inproc", "restart"))))
+        if prop == "C01" and sp["key"].startswith(("var|type=list|access=name", "var|type=dict|access=name", "var|type=nested|access=name", "var|type=odict|access=from")) \
+                and sp["id"].endswith(("/direct", "/helper2")):
+            # the user turns list / dict tracking off for one evaluation and back on: later evaluations must see edits again
+            items.append((sp, ["eval_root", "direct"], "memory", 3, {prop}, (True, ("inproc", "optflip"))))
         if tier == "quick":
             qents = ents if core else [e for e in ents if e in ("eval_root", "direct")]
             if prop != "C02":
